@@ -26,7 +26,8 @@ ASSUMPTIONS = ["scipy Rotation algebra; tolerance grows with |tg|/distance-to-su
 
 def plan(tier):
     return {"shards": 8 if tier == "quick" else 16, "budget_s": 25 if tier == "quick" else 300,
-            "required_counters": ["variant:scratch", "variant:moved", "variant:local_frame"]}
+            "required_counters": ["variant:scratch", "variant:moved", "variant:local_frame", "variant:local_frame_with_path",
+                                  "variant:collection_about_own_position"]}
 
 
 def gen_case(rng):
@@ -45,6 +46,9 @@ def gen_case(rng):
                 P, Q = objs.rand_path(rng, Lc)
                 s["position"], s["orientation"] = P, Q
         pos, ori = objs.rand_path(rng, Lc, 0.3)
+        if rng.random() < 0.5 and len(srcs) >= 2:  # nest: an inner collection displaced from the outer one
+            ipos, iori = objs.rand_path(rng, Lc, 1.5)
+            srcs = [{"cls": "Collection", "children": srcs[1:], "position": ipos, "orientation": iori}, srcs[0]]
         srcs = [{"cls": "Collection", "children": srcs, "position": pos, "orientation": ori}]
     # observers near the first leaf at path index 0 (global frame)
     leaf = objs.leaves(srcs[0])[0]
@@ -117,23 +121,50 @@ def check_case(ctx, case):
             ctx.violation({"kind": "not-covariant", "variant": name, "field": F,
                            "cls": sorted({l["cls"] for l in leaves})}, case,
                           {"ratio": w, "rtol": rtol, "got": v.ravel()[:6], "want": want.ravel()[:6]})
-    # (3) local frame placed in the global frame, per leaf with path index 0
+    # (3) local frame placed in the global frame: the leaf evaluated WITH ITS WHOLE PATH and all observers
+    #     in one call, against the unposed leaf evaluated at R_i^-1 (o - p_i) for every path index i
     for leaf in leaves[:2]:
         try:
             with quiet():
-                p0, R0 = np.array(leaf["position"][0]), R.from_quat(leaf["orientation"][0])
-                posed = np.asarray(get(objs.build(objs.freeze(leaf, 0)), O, squeeze=False))[0, 0, 0]
+                posed = np.asarray(get(objs.build(leaf), O, squeeze=False))[0, :, 0]  # (path, n, 3)
                 ident = objs.build({**leaf, "position": [[0.0, 0, 0]], "orientation": [[0.0, 0, 0, 1]]})
-                loc = np.asarray(get(ident, R0.inv().apply(O - p0), squeeze=False))[0, 0, 0]
+                want_l = []
+                for i in range(objs.path_len(leaf)):
+                    p_i, R_i = np.array(leaf["position"][i]), R.from_quat(leaf["orientation"][i])
+                    loc = np.asarray(get(ident, R_i.inv().apply(O - p_i), squeeze=False))[0, 0, 0]
+                    want_l.append(R_i.apply(loc))
+                want_l = np.array(want_l)
         except Exception as e:
             ctx.violation({"kind": "exception", "type": type(e).__name__}, case, exc_info(e))
             return
         ctx.count("variant:local_frame")
-        ctx.evaluated({"leaf": leaf, "obs": case["observers"], "F": F}, nontrivial=True, n=len(O))
-        ok, w = tol.close_a(posed, R0.apply(loc), amp * tol.floor_abs(leaf, F), rtol=rtol)
+        if objs.path_len(leaf) > 1:
+            ctx.count("variant:local_frame_with_path")
+        ctx.evaluated({"leaf": leaf, "obs": case["observers"], "F": F}, nontrivial=True, n=len(O) * objs.path_len(leaf))
+        ok, w = tol.close_a(posed, want_l, amp * tol.floor_abs(leaf, F), rtol=rtol)
         if not ok:
-            ctx.violation({"kind": "pose-not-local-frame", "cls": leaf["cls"], "field": F}, case,
-                          {"ratio": w, "got": posed.ravel()[:3], "want": R0.apply(loc).ravel()[:3]})
+            ctx.violation({"kind": "pose-not-local-frame", "cls": leaf["cls"], "field": F, "path": objs.path_len(leaf) > 1}, case,
+                          {"ratio": w, "got": posed.ravel()[:3], "want": want_l.ravel()[:3]})
+    # (4) a static (nested) collection rotated about ITS OWN position (anchor=None) is the rigid motion
+    #     x -> Rg (x - p) + p of the whole assembly
+    top = specs[0]
+    if top["cls"] == "Collection" and objs.path_len(top) == 1 and all(objs.path_len(l) == 1 for l in leaves):
+        try:
+            with quiet():
+                o4 = objs.build(top)
+                o4.rotate(Rg)  # anchor None
+                pc = np.array(top["position"][0])
+                O4 = Rg.apply(O - pc) + pc
+                v4 = np.asarray(get(o4, O4, squeeze=False))
+                b4 = np.asarray(get(objs.build(top), O, squeeze=False))
+            ctx.count("variant:collection_about_own_position")
+            ctx.evaluated({**case, "variant": "own_position"}, nontrivial=True, n=len(O))
+            ok, w = tol.close_a(v4, Rg.apply(b4.reshape(-1, 3)).reshape(b4.shape), fl, rtol=rtol)
+            if not ok:
+                ctx.violation({"kind": "not-covariant", "variant": "collection-about-own-position", "field": F,
+                               "nested": any(c["cls"] == "Collection" for c in top["children"])}, case, {"ratio": w})
+        except Exception as e:
+            ctx.violation({"kind": "exception", "type": type(e).__name__}, case, exc_info(e))
 
 
 def run_shard(ctx):
